@@ -178,8 +178,104 @@ class SequenceContainsLoop(LoopSpec):
         return contains_axioms(V, x, [])
 
 
+def index_axioms(V, x, idxs):
+    """[SPEC-BUILTIN] list.index(x): the LEAST index of an element that is / == x; ValueError iff there is none."""
+    r = bs.list_index(V, x)
+    out = [z3.Implies(bs.list_contains(V, x), z3.And(r >= 0, r < bs.list_len(V), pyeq(bs.list_get(V, VInt(r)), x)))]
+    for i in idxs:
+        out.append(z3.Implies(z3.And(i >= 0, i < bs.list_len(V), pyeq(bs.list_get(V, VInt(i)), x)),
+                              z3.And(bs.list_contains(V, x), r <= i)))
+    return out
+
+
+class SequenceIndexLoop(LoopSpec):
+    """collections.abc.Sequence.index(value) - the one-argument form:
+           i = 0;  while True:  try: v = self[i]  except IndexError: break;  if v is value or v == value: return i;  i += 1
+    Every `self[i]` RE-LOADS the collection.  With B the receiver's content in the resource as of the call (its own
+    view at entry if the resource is absent), every reloaded view is == B (Python ==) as long as nobody writes, and
+           i >= 0,  and no element of B before position i is == value      (pointwise at the least-index witness)."""
+    def parts(self, L, st):
+        from pyvc.loops import param_name
+        E = st.ghost["fn_entry"]
+        me = st.loc[param_name(L.fi, 0)]
+        x = to_val(st.loc[param_name(L.fi, 1)])
+        n = z3.IntVal(me.addr)
+        info = core.node(type("C", (), {"eng": L.eng})(), E, me)
+        R0 = E.sel("Res", info["rid"])
+        pos = R0 if info["is_root"] else bs.sub_of(R0, VRef(n))
+        B = z3.If(R0 == smt.VAbsent, E.sel("View", n), pos)
+        return E, me, n, x, R0, B, info
+
+    def prepare(self, L, st):
+        st.ghost["fn_entry"] = st.copy()
+
+    def havoc(self, L, st):
+        havoc_heap(st)
+
+    def counter(self, L, st):
+        import ast as _ast
+        # the loop counter: the local the function returns
+        from pyvc.loops import returned_name
+        return as_int(st.loc[returned_name(L.fi)])
+
+    def invariant(self, L, st, vis):
+        E, me, n, x, R0, B, info = self.parts(L, st)
+        i = self.counter(L, st)
+        j0 = bs.list_index(B, x)
+        out = [("counter-nonnegative", i >= 0),
+               ("absent-resource-leaves-the-view", z3.Implies(R0 == smt.VAbsent, st.sel("View", n) == E.sel("View", n))),
+               ("earlier-elements-differ", z3.Implies(z3.And(j0 >= 0, j0 < i, j0 < bs.list_len(B)),
+                                                      z3.Not(pyeq(bs.list_get(B, VInt(j0)), x))))]
+        # a read loop: every iteration reloads the whole tree, so nothing ties the views to their entry values;
+        # what stays is what no load touches
+        out.append(("alloc-monotone", st.g["Alloc"] >= E.g["Alloc"]))
+        for (cn, an_), v in E.statics.items():
+            if isinstance(v, Z) and v.hint in ("dict", "list"):
+                a_ = Val.addr(v.term)
+                out.append((f"static-container-kept:{cn}.{an_}", st.sel("Cell", a_) == E.sel("Cell", a_)))
+        for t in E.ghost.get("frame_cells", []):
+            out.append(("foreign-container-kept", st.sel("Cell", t) == E.sel("Cell", t)))
+        keys = list(E.ghost.get("skolem_res", []))
+        for a, orec in E.objs.items():
+            if orec.tag.startswith("node") and "_filename" in orec.fields:
+                keys.append(to_val(orec.fields["_filename"]))
+        seen = set()
+        for nme in E.g:
+            if nme.startswith("LockDom:"):
+                for k in keys:
+                    if (nme, k.get_id()) not in seen:
+                        seen.add((nme, k.get_id()))
+                        out.append((f"lock-table-grows:{nme[8:]}", z3.Implies(z3.Select(E.g[nme], k), z3.Select(st.g[nme], k))))
+        return out
+
+    def unfold_B(self, L, st):
+        """B is the receiver's content in the resource (or its entry view): definitional equations, so that the
+        read terms over both forms occur (the congruence instances are generated per occurring term)."""
+        E, me, n, x, R0, B, info = self.parts(L, st)
+        i = self.counter(L, st)
+        pos = R0 if info["is_root"] else bs.sub_of(R0, VRef(n))
+        out = []
+        for t in (pos, E.sel("View", n)):
+            out.append(z3.Implies(B == t, z3.And(bs.list_len(B) == bs.list_len(t), bs.list_get(B, VInt(i)) == bs.list_get(t, VInt(i)),
+                                                  bs.list_index(B, x) == bs.list_index(t, x),
+                                                  bs.list_contains(B, x) == bs.list_contains(t, x))))
+        out.append(z3.If(R0 == smt.VAbsent, B == E.sel("View", n), B == pos))
+        return out
+
+    def iteration_facts(self, L, st, i_unused):
+        E, me, n, x, R0, B, info = self.parts(L, st)
+        i = self.counter(L, st)
+        return index_axioms(B, x, [i]) + contains_axioms(B, x, [i]) + self.unfold_B(L, st)
+
+    def at_exit(self, L, st):
+        E, me, n, x, R0, B, info = self.parts(L, st)
+        i = self.counter(L, st)
+        return index_axioms(B, x, [i]) + contains_axioms(B, x, []) + self.unfold_B(L, st)
+
+
 def register(eng):
     eng.loop_specs[("stdlib:Sequence.__contains__", 1)] = SequenceContainsLoop()
+    eng.loop_specs[("stdlib:Sequence.index", 1)] = SequenceIndexLoop()
     eng.loop_specs[("_comp_list", 1)] = FromBaseMapLoop("list")
     eng.loop_specs[("_comp_dict", 1)] = FromBaseMapLoop("dict")
     eng.virtual["_to_base"] = VirtualToBase()
